@@ -36,8 +36,16 @@ func LoadWordVectors(filepath string) (*Index, error) {
 		return nil, fmt.Errorf("failed to read vocab size: %w", err)
 	}
 
+	const dimension = 100 // GloVe 100d
+
+	// Every word record holds at least a length and a vector; a header that
+	// claims more records than the file can hold is corrupt.
+	if err := checkRecordCount(f, vocabSize, 2+4*dimension); err != nil {
+		return nil, fmt.Errorf("invalid vocab size: %w", err)
+	}
+
 	idx := &Index{
-		Dimension:   100, // GloVe 100d
+		Dimension:   dimension,
 		WordVectors: make(map[string][]float32, vocabSize),
 	}
 
@@ -92,6 +100,10 @@ func (idx *Index) LoadCommandEmbeddings(filepath string) error {
 		return fmt.Errorf("dimension mismatch: expected %d, got %d", idx.Dimension, dimension)
 	}
 
+	if err := checkRecordCount(f, numCommands, 4*int64(dimension)); err != nil {
+		return fmt.Errorf("invalid num commands: %w", err)
+	}
+
 	// Read embeddings
 	idx.CmdEmbeddings = make([][]float32, numCommands)
 	for i := uint32(0); i < numCommands; i++ {
@@ -102,6 +114,19 @@ func (idx *Index) LoadCommandEmbeddings(filepath string) error {
 		idx.CmdEmbeddings[i] = embedding
 	}
 
+	return nil
+}
+
+// checkRecordCount rejects a record count from a file header that the file
+// is too small to hold, so that allocations stay proportional to the file.
+func checkRecordCount(f *os.File, count uint32, minRecordBytes int64) error {
+	info, err := f.Stat()
+	if err != nil {
+		return err
+	}
+	if maxRecords := info.Size() / minRecordBytes; int64(count) > maxRecords {
+		return fmt.Errorf("header claims %d records, file has room for at most %d", count, maxRecords)
+	}
 	return nil
 }
 
